@@ -109,6 +109,11 @@ class Check:
         for rec in self.known_hits:
             print('KNOWN-FINDING: property=%s %s [%s]' % (
                 self.pid, self.known[rec['key']].get('what', rec['detail']), rec['key']))
+        hit = {r['key'] for r in self.known_hits}
+        stale = sorted(k for k, e in self.known.items() if e.get('property') == self.pid and k not in hit)
+        for k in stale:
+            # a listed finding that no rule reports any more: repaired, or the checker lost the rule - never silent
+            print('STALE-KNOWN-FINDING: property=%s key=%s is listed in known_findings.json but was not reported on this tree' % (self.pid, k))
         n = 0
         for rec in self.violations:
             n += 1
@@ -135,6 +140,7 @@ class Check:
             'per_rule': {k: {'obligations': v[0], 'discharged': v[1]} for k, v in sorted(self.rules.items())},
             'analysed': self.analysed,
             'known_findings_hit': [r['key'] for r in self.known_hits],
+            'known_findings_not_reproduced': stale,
             'notes': self.notes,
             'repo': REPO,
         }
